@@ -259,7 +259,7 @@ impl Group for C07 {
                 0 | 1 | 2 => { let s = pick(rng, &[1, 2, 3, 4, 5, 6]); Dest { sid: s, spend: true, allow: allow.contains(&s) } }
                 3 => { let s = pick(rng, &[1, 2, 3, 4]); Dest { sid: s, spend: false, allow: allow.contains(&s) } }
                 4 | 5 => { let s = pick(rng, &[10, 11, 12]); Dest { sid: s, spend: false, allow: allow.contains(&s) } }
-                6 => { let s = pick(rng, &[20, 21, 22]); Dest { sid: s, spend: false, allow: false } }
+                6 => { let s = pick(rng, &[20, 21, 22]); Dest { sid: s, spend: false, allow: allow.contains(&s) } }
                 _ if upfront != 0 => Dest { sid: upfront, spend: up_spend && rng.chance(3, 4), allow: allow.contains(&upfront) },
                 _ => { let s = pick(rng, &[1, 2, 3, 4]); Dest { sid: s, spend: true, allow: allow.contains(&s) } }
             };
